@@ -216,6 +216,8 @@ impl Connection {
             _ => false,
         }),                                                                                                            // [C12.close-sent] a close succeeds only from a state in which none was sent yet and moves to one in which no further close can succeed: at most one close
         r is Err ==> final(self).local_state == old(self).local_state,
+        !(old(self).local_state is Opened || old(self).local_state is CloseReceived || old(self).local_state is OpenSent || old(self).local_state is OpenPipe)
+            ==> r is Err && final(writer).sent@ == old(writer).sent@,                                                   // [C12.close-at-most-once] in a state in which a close was already sent (or nothing was opened) a further close request puts NOTHING on the wire
         *final(self) == (Connection { local_state: final(self).local_state, ..*old(self) }),
 //@@ end
 }
